@@ -93,7 +93,9 @@ impl PatternLinter for ModalOf {
             }
             // False positive: <word> _ might _ of _ course
             7 => return None,
-            _ => unreachable!(),
+            // A whitespace step of the pattern matches a whole run of whitespace tokens
+            // (a space followed by a line break is two), so other lengths do occur.
+            _ => return None,
         };
 
         let span_modal_of = matched_toks[modal_index..modal_index + 3].span().unwrap();
